@@ -1,7 +1,7 @@
 """Configuration of ./check for C02 (see tools/props.py)."""
 ENTRY = {'coq_dir': 'C02',
  'harness': 'c02',
- 'cases': {'quick': 3000, 'thorough': 60000},
+ 'cases': {'quick': 5000, 'thorough': 150000},
  'consts': ['MAX_NOISE_MSG_LEN', 'NOISE_EXTRA_ENCRYPT_SPACE', 'MAX_FRAME_LEN', 'MAX_READ_AHEAD_FACTOR', 'MAX_WRITE_BUFFER_SIZE',
             'TCP_NOISE_READ_AHEAD_DEFAULT', 'TCP_NOISE_WRITE_BUFFER_DEFAULT', 'WS_NOISE_READ_AHEAD_DEFAULT',
             'WS_NOISE_WRITE_BUFFER_DEFAULT', 'NOISE_KIND_TABLE_SIZE'],
@@ -110,7 +110,7 @@ ENTRY = {'coq_dir': 'C02',
       'C02_buffer_window, C02_buffer_window_step, C02_buffer_slice (byte-level buffer incl. the 1-byte carry-over); C02_wire_grows',
       'scripted carrier on both sides: 1-byte, frame +-1, max_read +-2, random, Pending, Ok(0), every io::ErrorKind; window bit per poll'],
      ['If ciphertext is modified, truncated, replayed, dropped or reordered in transit',
-      'C02_tamper_wf (every list of manipulations is covered), C02_read_tamper, C02_read_clean_prefix, C02_nonce_discipline, C02_connection',
+      'C02_tamper_wf (every list of manipulations is covered), C02_read_tamper, C02_read_clean_prefix, C02_nonce_discipline, C02_nonce_step, C02_connection',
       'manipulation lists of 12 kinds per round; receiving nonce per poll'],
      ['the reader gets an error',
       'C02_read_clean_prefix + C02_read_exact (a non-empty buffer never gets Ready(0): beyond the clean prefix every poll is Pending or '
